@@ -37,11 +37,15 @@ Section BufSpec.
   Definition blen (t : bseq) : Z := Z.of_nat (length t).
 
   (* the i-th item as the buffer kind counts *)
+  (* (positions are usize values, possibly huge: compared with the length
+     before they are used to count along the list) *)
   Definition bget (k : kind) (t : bseq) (i : Z) : option A :=
-    match k with
-    | Queue => nth_error t (Z.to_nat i)
-    | Stack => nth_error (rev t) (Z.to_nat i)
-    end.
+    if i <? blen t then
+      match k with
+      | Queue => nth_error t (Z.to_nat i)
+      | Stack => nth_error (rev t) (Z.to_nat i)
+      end
+    else None.
 
   Definition bspec_step (k : kind) (c : Z) (t : bseq) (o : bop) : bseq * bout :=
     match o with
